@@ -281,7 +281,7 @@ class Outcome:
         self.broken = []          # shards that could not be run
 
 
-def compare_shard(pid, casefile, iout, mout, status, oc, nontrivial_key=None, keys=None):
+def compare_shard(pid, casefile, iout, mout, status, oc, nontrivial_key=None, keys=None, ref_from_model=False):
     cases = [l.strip() for l in open(casefile) if l.strip() and not l.startswith("#")]
     if status["model_rc"] != 0:
         oc.internal.append(("model runner failed", casefile, str(status)))
@@ -329,6 +329,10 @@ def compare_shard(pid, casefile, iout, mout, status, oc, nontrivial_key=None, ke
             continue
         indom = d.get(pid) == "1"
         kclass = d.get("known_" + pid)
+        if ref_from_model:
+            # the property quantifies over every input: the outcome class (ok / err, never panic) must be the model's
+            indom, kclass = True, None
+            r = {"id": cid, "resclass": ",".join(x.split(":")[0] for x in m.get("res", "").split(","))}
         if indom:
             oc.in_domain += 1
             sig = nontrivial_key(t, m) if nontrivial_key else (m.get("res", ""), m.get("ccr", ""), m.get("md", ""))
@@ -495,7 +499,7 @@ def check(pid, tier, seed, replay=None):
             jobs.append((exes[prof], cf, getattr(gen, "SHARD_TIMEOUT", 600)))
         with Pool(min(NPROC, max(1, len(jobs)))) as pool:
             for casefile, iout, mout, cons, status in pool.imap_unordered(run_shard, jobs):
-                compare_shard(pid, casefile, iout, mout, status, oc, getattr(gen, "nontrivial_key", None), getattr(gen, "KEYS", None))
+                compare_shard(pid, casefile, iout, mout, status, oc, getattr(gen, "nontrivial_key", None), getattr(gen, "KEYS", None), getattr(gen, "REF_FROM_MODEL", False))
                 if replay:
                     for suffix, tagname in ((".impl", "implementation"), (".model", "model/reference")):
                         if os.path.exists(casefile + suffix):
